@@ -185,6 +185,35 @@ def mirror_fragments():
     )
 
 
+def twin_fragments():
+    """
+    Two keys that differ in exactly one nibble and carry the same (hashed-size) value: two
+    IDENTICAL sibling leaves under one branch (one node referenced twice by the same parent);
+    then one of them is deleted / overwritten, so the branch collapses onto the other.
+    """
+
+    def build(base, pos, n1, n2, size, then, syn):
+        nibs = list(nibbles_of(base))
+        p = pos % len(nibs)
+        a, b = list(nibs), list(nibs)
+        a[p], b[p] = n1, (n2 if n2 != n1 else (n1 + 1) % 16)
+        ka = bytes(a[i] * 16 + a[i + 1] for i in range(0, len(a), 2))
+        kb = bytes(b[i] * 16 + b[i + 1] for i in range(0, len(b), 2))
+        val = ("lit", b"T" * size)
+        ops = [("set", ("lit", ka), val, syn), ("set", ("lit", kb), val, 1 - syn)]
+        if then == 0:
+            ops.append(("del", ("lit", ka), syn))
+        elif then == 1:
+            ops.append(("set", ("lit", kb), ("lit", b"other" * 8), syn))
+        elif then == 2:
+            ops += [("del", ("lit", kb), syn), ("del", ("lit", ka), syn)]
+        return ops
+
+    return st.builds(build, st.sampled_from([b"\x71\xab\xcd", b"\x12\x34", b"\x00\x00\x00\x00", LONG_BASE]),
+                     st.integers(0, 63), st.integers(0, 15), st.integers(0, 15),
+                     st.sampled_from([32, 33, 40, 20]), st.integers(0, 3), st.integers(0, 1))
+
+
 def fan_items():
     """16 keys that differ in one nibble: a full branch node (all 16 children present)."""
     return st.builds(
@@ -246,9 +275,9 @@ def histories(tier, max_ops=None, batches=True, aborts=False, near_weight=2, sfx
     if looks:
         op = st.one_of([op] * 3 + [look_ops(tier)] * looks)
     mirror = mirror_fragments()
-    parts = [op] * 12 + [mirror] * mirror_weight + [fan_fragments()]
+    parts = [op] * 12 + [mirror] * mirror_weight + [fan_fragments()] + [twin_fragments()] * mirror_weight
     if batches:
-        inner = st.lists(st.one_of([op] * 8 + [mirror] * mirror_weight), max_size=8).map(
+        inner = st.lists(st.one_of([op] * 8 + [mirror] * mirror_weight + [twin_fragments()] * mirror_weight), max_size=8).map(
             lambda fr: _flatten(fr, 12)
         )
         if aborts:
